@@ -25,6 +25,8 @@ ASSUMPTIONS = [
     "text range bounds that SQLite converts to a floating point number ('5.5', '1e3', '-99999999999999999999') are "
     "outside the model (the driver answers `unmodelled`, the call is still executed on both sides)",
     "at most 128 distinct SQL texts per connection (CPython statement cache never evicts)",
+    "the model has one parameter order per method (the documented one); the calling convention (positional / keyword / "
+    "mixed / shortest call) is a dimension of the correspondence and of the oracle only",
 ]
 MODELLED_NOT_VERIFIED = [
     "C13: CPython int(bytes) (whitespace, sign, single underscores, 4300-digit limit), bytes.index; sqlite3 module "
@@ -85,6 +87,94 @@ def btok(b):
     return f"n{b}" if isinstance(b, int) else C.hx(b)
 
 
+# ----------------------------------------------------------------------------------------------
+# calling conventions: every public method is called in several ways (the model has one parameter order – the
+# documented one; an implementation whose positional order or keyword names differ must show up)
+#   std  what the library's own callers do (set_seq_num with keywords, everything else positional)
+#   pos  every argument positional        kw   every argument by keyword
+#   mix  leading arguments positional, the rest by keyword
+#   min  the shortest call: trailing arguments that are None are left out (one positional value, …)
+# An op carries its convention as an optional last element "@<conv>".
+# ----------------------------------------------------------------------------------------------
+CONVS = ["pos", "kw", "mix", "min"]
+
+
+def conv_of(op):
+    if len(op) and isinstance(op[-1], str) and op[-1].startswith("@"):
+        return op[-1][1:], tuple(op[:-1])
+    return "std", tuple(op)
+
+
+def with_conv(rng, op, p=0.5):
+    """attach a random calling convention to an op with probability p"""
+    return tuple(op) + (("@" + rng.choice(CONVS),) if rng.random() < p else ())
+
+
+def call_col(j, t, s, conv):
+    if conv == "kw":
+        return j.create_or_load(sender_comp_id=s, target_comp_id=t)
+    if conv == "mix":
+        return j.create_or_load(t, sender_comp_id=s)
+    return j.create_or_load(t, s)
+
+
+def call_persist(j, msg, h, dirv, conv):
+    if conv == "kw":
+        return j.persist_msg(direction=dirv, session=h, msg=msg)
+    if conv == "mix":
+        return j.persist_msg(msg, h, direction=dirv)
+    return j.persist_msg(msg, h, dirv)
+
+
+def call_set(j, h, o, i, conv):
+    if conv == "pos":
+        return j.set_seq_num(h, o, i)
+    if conv == "mix":
+        return j.set_seq_num(h, o, next_num_in=i)
+    if conv == "min":
+        if o is None and i is None:
+            return j.set_seq_num(h)
+        if i is None:
+            return j.set_seq_num(h, o)          # one positional value
+        if o is None:
+            return j.set_seq_num(h, next_num_in=i)
+        return j.set_seq_num(h, o, i)
+    if conv == "kw":
+        return j.set_seq_num(next_num_in=i, session=h, next_num_out=o)
+    return j.set_seq_num(h, next_num_out=o, next_num_in=i)
+
+
+def call_rec(j, h, dirv, lo, hi, conv):
+    if conv == "kw":
+        return j.recover_messages(end_seq_no=hi, start_seq_no=lo, direction=dirv, session=h)
+    if conv == "mix":
+        return j.recover_messages(h, dirv, start_seq_no=lo, end_seq_no=hi)
+    return j.recover_messages(h, dirv, lo, hi)
+
+
+def call_rec1(j, h, dirv, b, conv):
+    if conv == "kw":
+        return j.recover_msg(seq_no=b, direction=dirv, session=h)
+    if conv == "mix":
+        return j.recover_msg(h, dirv, seq_no=b)
+    return j.recover_msg(h, dirv, b)
+
+
+def call_getall(j, arg, dirv, conv):
+    if conv == "kw":
+        return j.get_all_msgs(direction=dirv, sessions=arg)
+    if conv == "mix":
+        return j.get_all_msgs(arg, direction=dirv)
+    if conv == "min":
+        if dirv is None and arg is None:
+            return j.get_all_msgs()
+        if dirv is None:
+            return j.get_all_msgs(arg)
+        if arg is None:
+            return j.get_all_msgs(direction=dirv)
+    return j.get_all_msgs(arg, dirv)
+
+
 class Impl:
     """Runs an op list on the real Journaler; produces driver lines and canonical replies."""
 
@@ -97,6 +187,7 @@ class Impl:
         self.pool = []
         self.lines = ["jrn.start -"]
         self.out = ["none tx=0"]
+        self.convs = {}
 
     def close(self):
         self.j = None  # refcount drops to zero: Journaler.__del__ closes cursor and connection
@@ -126,6 +217,8 @@ class Impl:
         from asyncfix.message import MessageDirection as D
         from asyncfix.session import FIXSession
 
+        conv, op = conv_of(op)
+        self.convs[conv] = self.convs.get(conv, 0) + 1
         k = op[0]
         dname = lambda d: "out" if d == 1 else "in"  # noqa
         dval = lambda d: D.OUTBOUND if d == 1 else D.INBOUND  # noqa
@@ -133,7 +226,7 @@ class Impl:
             _, t, s = op
 
             def f():
-                h = self.j.create_or_load(t, s)
+                h = call_col(self.j, t, s, conv)
                 self.pool.append(h)
                 return h
 
@@ -160,14 +253,14 @@ class Impl:
             msg = bytes.fromhex(mhex)
             return self.emit(
                 f"jrn.persist {h.key} {h.next_num_out} {h.next_num_in} {dname(d)} {C.hx(msg)}",
-                lambda: self.j.persist_msg(msg, h, dval(d)), lambda r: "none" if r is None else repr(r))
+                lambda: call_persist(self.j, msg, h, dval(d), conv), lambda r: "none" if r is None else repr(r))
         if k == "set":
             _, ref, o, i = op
             h = self.h(ref)
             line = f"jrn.set {h.key} {h.next_num_out} {h.next_num_in} {'-' if o is None else o} {'-' if i is None else i}"
             self.lines.append(line)
             try:
-                self.j.set_seq_num(h, next_num_out=o, next_num_in=i)
+                call_set(self.j, h, o, i, conv)
                 r = "ok"
             except Exception as e:  # noqa
                 r = exc_kind(e)
@@ -179,13 +272,13 @@ class Impl:
             h = self.h(ref)
             return self.emit(
                 f"jrn.rec {h.key} {dname(d)} {btok(lo)} {btok(hi)}",
-                lambda: self.j.recover_messages(h, dval(d), lo, hi), lambda ms: "m " + ",".join(C.hx(m) for m in ms))
+                lambda: call_rec(self.j, h, dval(d), lo, hi, conv), lambda ms: "m " + ",".join(C.hx(m) for m in ms))
         if k == "rec1":
             _, ref, d, b = op
             h = self.h(ref)
             return self.emit(
                 f"jrn.rec1 {h.key} {dname(d)} {btok(b)}",
-                lambda: self.j.recover_msg(h, dval(d), b), lambda m: "o none" if m is None else "o " + C.hx(m))
+                lambda: call_rec1(self.j, h, dval(d), b, conv), lambda m: "o none" if m is None else "o " + C.hx(m))
         if k == "getall":
             _, keys, d = op
             if keys is None:
@@ -197,7 +290,7 @@ class Impl:
                 tok = ",".join(str(h.key) for h in hs) if hs else "[]"
             return self.emit(
                 f"jrn.getall {tok} {'-' if d is None else dname(d)}",
-                lambda: self.j.get_all_msgs(arg, None if d is None else dval(d)),
+                lambda: call_getall(self.j, arg, None if d is None else dval(d), conv),
                 lambda rs: "r " + ",".join(f"{a}:{C.hx(m)}:{dd}:{s}" for a, m, dd, s in rs))
         if k == "restart":
             if self.path is None:
@@ -354,8 +447,10 @@ def content_class(msg, d):
 
 def pick_num(rng, st):
     v = rng.random()
-    if v < 0.40:
+    if v < 0.34:
         return rng.randint(1, 6)
+    if v < 0.40:
+        return rng.choice([8, 9, 10, 11, 12, 98, 99, 100, 101, 999, 1000])   # digit-count boundaries
     if v < 0.52:
         return rng.choice([7, 12, 40, 99, 250, 1000, 31337])
     if v < 0.62:
@@ -372,7 +467,7 @@ def pick_num(rng, st):
     return rng.choice([I63, I63 + 1, -I63 - 1, 2**64, 10**30])
 
 
-TEXT_BOUNDS = ["5", " 5", "5 ", "+5", "05", "-3", "0", "abc", "", "5abc", "0x5", "-", "- 3", "1_0", "9223372036854775807",
+TEXT_BOUNDS = ["5", " 5", "5 ", "+5", "05", "-3", "0", "9", "11", "8", "100", "99", "1000", "10", "12", "abc", "", "5abc", "0x5", "-", "- 3", "1_0", "9223372036854775807",
                "9223372036854775808", "99999999999999999999999", "5\x00", "٥", ".", "e5", "5e", "5 5", "+", "3", "2", "1",
                "4611686018427387904", "\t7\n", "-0", "00"]
 TEXT_UNMODELLED = ["5.5", "1e1", "5.", ".5e1", "-9223372036854775809", "2.0"]
@@ -427,8 +522,9 @@ def gen_sequence(rng, maxlen, file_backed=False):
             if known and w < 0.45:
                 # a query around a number that was stored (same slot; same or the other direction)
                 ref, d, _, num = rng.choice(known)
-                lo = rng.choice([num, num - 1, num - rng.randint(0, 50), -I63, str(num)])
-                hi = rng.choice([num, num + 1, num + rng.randint(0, 50), I63 - 1, str(num), "x"])
+                lo = rng.choice([num, num - 1, num - rng.randint(0, 50), -I63, str(num), str(num - rng.randint(0, 3))])
+                hi = rng.choice([num, num + 1, num + rng.randint(0, 50), I63 - 1, str(num), "x",
+                                 str(num + rng.randint(0, 95)), str(num * 10 + 1)])
                 ops.append(("rec", ref, d if rng.random() < 0.8 else 1 - d, max(lo, -I63) if isinstance(lo, int) else lo,
                             min(hi, I63 - 1) if isinstance(hi, int) else hi))
             elif w < 0.6:
@@ -461,13 +557,16 @@ def gen_sequence(rng, maxlen, file_backed=False):
                 ("rec", ref, d, -I63, I63 - 1)]
         ops += tail
     ops.append(("obs",))
-    return ops
+    return [with_conv(rng, op) if op[0] in ("col", "persist", "set", "rec", "rec1", "getall") else op for op in ops]
 
 
 def mktmp(prefix):
     """scratch directory for SQLite files (a tmpfs when there is one: fsync on a disk dominates the run time)"""
     shm = "/dev/shm"
     return tempfile.mkdtemp(prefix=prefix, dir=shm if os.path.isdir(shm) and os.access(shm, os.W_OK) else None)
+
+
+CONV_COUNT = {}
 
 
 def run_impl(ops, file_backed=False):
@@ -479,6 +578,8 @@ def run_impl(ops, file_backed=False):
             r = im.step(op)
             kinds.append((op[0], r))
         im.close()
+        for k, v in im.convs.items():
+            CONV_COUNT[k] = CONV_COUNT.get(k, 0) + v
         return im.lines, im.out, kinds
     finally:
         if d:
@@ -513,6 +614,7 @@ def find_first_diff(lines, impl, model):
 
 def correspondence(ctx):
     drv = C.Driver()
+    CONV_COUNT.clear()
     cases = [(n, ops, fb) for n, ops, fb in load_corpus()]
     ncorp = len(cases)
     nseq = ctx.n(3000, 30000)
@@ -584,6 +686,7 @@ def correspondence(ctx):
         "exhaustive": False,
         "branches": dict(sorted(branches.items())),
         "distribution": {"sequences": len(cases), "corpus": ncorp, "ops": opcount, "unmodelled_skipped": skipped,
+                         "calling_conventions": dict(sorted(CONV_COUNT.items())),
                          "stored_frame_content": dict(sorted(content.items())),
                          "max_len": maxlen},
         "disagreements": dis,
@@ -669,6 +772,38 @@ class Ref:
         self.ids = {}       # (t, s) -> sid
 
 
+def bound_value(b):
+    """the reference reading of a range bound: an int, or text that spells an integer (ASCII digits, optional
+    sign, surrounding blanks) – compared NUMERICALLY, whatever the digit counts; None = not judged by the oracle"""
+    if isinstance(b, bool):
+        return None
+    if isinstance(b, int):
+        return b if -I63 <= b < I63 else None
+    if isinstance(b, str) and _is_int_text(b):
+        v = int(b.strip(" \t\n\x0b\x0c\r"))
+        return v if -I63 <= v < I63 else None
+    return None
+
+
+def render_bound(rng, n):
+    """an int bound as it is, or as one of the str spellings the `int | str` signature allows"""
+    v = rng.random()
+    if v < 0.55:
+        return n
+    t = str(abs(n))
+    if v < 0.62:
+        t = "0" * rng.randint(1, 2) + t
+    t = ("-" if n < 0 else ("+" if v > 0.95 else "")) + t
+    if 0.62 <= v < 0.70:
+        t = rng.choice([" ", "\t"]) + t
+    if 0.70 <= v < 0.76:
+        t = t + rng.choice([" ", "\n"])
+    return t
+
+
+DIGIT_EDGES = [8, 9, 10, 11, 12, 98, 99, 100, 101, 999, 1000, 1001]
+
+
 def oracle_sequence(rng, maxlen):
     """clean ops only: valid frames with known in-range numbers, handles from the journal"""
     if rng.random() < 0.5:
@@ -682,23 +817,27 @@ def oracle_sequence(rng, maxlen):
         v = rng.random()
         sid = rng.randint(1, len(pairs))
         if v < 0.5:
-            n = pick_num(rng, st)
+            n = rng.choice(DIGIT_EDGES) if rng.random() < 0.3 else pick_num(rng, st)
             while not (-I63 <= n < I63):
                 n = pick_num(rng, st)
             ops.append(("persist", sid, rng.randint(0, 1), n, frame(rng, num_text(rng, n)).hex()))
         elif v < 0.62:
-            ops.append(("set", sid, rng.choice([None, 1, 2, 3, 6, 2**31, 2**62, 0, I63 + 1]),
-                        rng.choice([None, 1, 2, 4, 2**31, -1, I63 + 7])))
+            ops.append(("set", sid, rng.choice([None, 1, 2, 3, 6, 9, 11, 2**31, 2**62, 0, I63 + 1]),
+                        rng.choice([None, 1, 2, 4, 10, 2**31, -1, I63 + 7])))
         elif v < 0.9:
-            lo, hi = pick_num(rng, st), pick_num(rng, st)
-            if rng.random() < 0.5:
+            if rng.random() < 0.35:
+                lo, hi = rng.choice(DIGIT_EDGES), rng.choice(DIGIT_EDGES)
+            else:
+                lo, hi = pick_num(rng, st), pick_num(rng, st)
+            if rng.random() < 0.6:
                 lo, hi = min(lo, hi), max(lo, hi)
             lo, hi = max(-I63, min(I63 - 1, lo)), max(-I63, min(I63 - 1, hi))
-            ops.append(("rec", sid, rng.randint(0, 1), lo, hi))
+            # int and str bounds, independently (so also mixed), str in several spellings
+            ops.append(("rec", sid, rng.randint(0, 1), render_bound(rng, lo), render_bound(rng, hi)))
         else:
             ops.append(("col",) + rng.choice(pairs))
     ops.append(("col",) + rng.choice(pairs))   # every sequence re-loads at least one existing pair
-    return ops
+    return [with_conv(rng, op) for op in ops]
 
 
 def strict_seq(msg):
@@ -722,7 +861,7 @@ def convert(ops):
     """a sequence of the correspondence generator (as found in a disagreement) -> the clean vocabulary of the oracle:
     handle slots are resolved to the session they *should* denote (exact CompID pair -> id in creation order);
     calls the reference cannot judge (lenient / invalid frames, fabricated or foreign handles, text or out-of-range
-    bounds, numbers beyond 64 bits) are dropped.  The create/load structure – all CompID pairs, in order – is kept."""
+    bounds that do not spell an integer, numbers beyond 64 bits) are dropped; calling conventions are kept.  The create/load structure – all CompID pairs, in order – is kept."""
     ids, pool, out = {}, [], []
 
     def slot(ref):
@@ -731,13 +870,15 @@ def convert(ops):
         return pool[ref] if ref < len(pool) else pool[ref % len(pool)]
 
     rng_ok = lambda x: isinstance(x, int) and not isinstance(x, bool) and -I63 <= x < I63  # noqa
-    for op in ops:
+    for op0 in ops:
+        conv, op = conv_of(op0)
+        tag = () if conv == "std" else ("@" + conv,)
         k = op[0]
         if k == "col":
             pair = (op[1], op[2])
             ids.setdefault(pair, len(ids) + 1)
             pool.append(ids[pair])
-            out.append(("col", op[1], op[2]))
+            out.append(("col", op[1], op[2]) + tag)
         elif k == "sessions":
             pool.extend(ids.values())
         elif k == "fab":
@@ -745,19 +886,19 @@ def convert(ops):
         elif k == "persist":
             sid, n = slot(op[1]), strict_seq(bytes.fromhex(op[3]))
             if sid is not None and n is not None:
-                out.append(("persist", sid, op[2], n, op[3]))
+                out.append(("persist", sid, op[2], n, op[3]) + tag)
         elif k == "set":
             sid = slot(op[1])
             if sid is not None and all(v is None or (rng_ok(v) and 0 < v and rng_ok(v - 1)) for v in op[2:4]):
-                out.append(("set", sid, op[2], op[3]))
+                out.append(("set", sid, op[2], op[3]) + tag)
         elif k == "rec":
             sid = slot(op[1])
-            if sid is not None and rng_ok(op[3]) and rng_ok(op[4]):
-                out.append(("rec", sid, op[2], op[3], op[4]))
+            if sid is not None and bound_value(op[3]) is not None and bound_value(op[4]) is not None:
+                out.append(("rec", sid, op[2], op[3], op[4]) + tag)
         elif k == "rec1":
             sid = slot(op[1])
-            if sid is not None and rng_ok(op[3]):
-                out.append(("rec", sid, op[2], op[3], op[3]))
+            if sid is not None and bound_value(op[3]) is not None:
+                out.append(("rec", sid, op[2], op[3], op[3]) + tag)
     return out
 
 
@@ -796,11 +937,12 @@ def oracle_run(ops):
         if sorted(rows) != sorted(want):
             fails.append(("C13-rows-mismatch", "stored rows differ from the reference map", {"where": where, "expected": len(want), "observed": len(rows)}))
 
-    for idx, op in enumerate(ops):
+    for idx, op0 in enumerate(ops):
+        conv, op = conv_of(op0)
         k = op[0]
         try:
             if k == "col":
-                h = j.create_or_load(op[1], op[2])
+                h = call_col(j, op[1], op[2], conv)
                 if (op[1], op[2]) not in ref.ids:
                     ref.ids[(op[1], op[2])] = h.key
                     ref.counters[h.key] = [0, 0]
@@ -814,7 +956,7 @@ def oracle_run(ops):
                 msg = bytes.fromhex(mhex)
                 dup = (sid, d, n) in ref.store
                 try:
-                    j.persist_msg(msg, h, dirv(d))
+                    call_persist(j, msg, h, dirv(d), conv)
                     if dup:
                         fails.append(("C13-dup-not-reported", "storing a number twice did not fail", {"at": idx}))
                     ref.store[(sid, d, n)] = msg
@@ -831,7 +973,7 @@ def oracle_run(ops):
                 if I63 in (eo, ei):
                     half["seen"] = True
                 try:
-                    j.set_seq_num(h, next_num_out=o, next_num_in=i)
+                    call_set(j, h, o, i, conv)
                 except (AssertionError, OverflowError):
                     pass  # a call that raises must change nothing (checked by check_state against the unchanged reference)
                 else:
@@ -845,14 +987,19 @@ def oracle_run(ops):
                 _, sid, d, lo, hi = op
                 h = handles.get(sid) or handles[min(handles)]
                 sid = h.key
-                got = j.recover_messages(h, dirv(d), lo, hi)
-                want = [m for (kk, m) in sorted(((key[2], m) for key, m in ref.store.items() if key[0] == sid and key[1] == d and lo <= key[2] <= hi))]
+                lov, hiv = bound_value(lo), bound_value(hi)
+                if lov is None or hiv is None:
+                    continue
+                got = call_rec(j, h, dirv(d), lo, hi, conv)
+                want = [m for (kk, m) in sorted(((key[2], m) for key, m in ref.store.items() if key[0] == sid and key[1] == d and lov <= key[2] <= hiv))]
                 if got != want:
-                    fails.append(("C13-recover-mismatch", "range query differs from the reference map (bytes, order, isolation or bounds)",
-                                  {"at": idx, "expected": [m.hex() for m in want][:4], "observed": [m.hex() for m in got][:4]}))
-                one = j.recover_msg(h, dirv(d), lo)
-                if one != ref.store.get((sid, d, lo)):
-                    fails.append(("C13-recover-msg-mismatch", "recover_msg differs from the reference map", {"at": idx}))
+                    fails.append(("C13-recover-mismatch", "range query differs from the reference map (bytes, order, isolation or bounds; "
+                                  "bounds are compared numerically also when given as str)",
+                                  {"at": idx, "bounds": [lo, hi], "expected": [m.hex()[:60] for m in want][:4],
+                                   "observed": [m.hex()[:60] for m in got][:4], "expected_count": len(want), "observed_count": len(got)}))
+                one = call_rec1(j, h, dirv(d), lo, conv)
+                if one != ref.store.get((sid, d, lov)):
+                    fails.append(("C13-recover-msg-mismatch", "recover_msg differs from the reference map", {"at": idx, "seq": lo}))
         except Exception as e:  # noqa
             fails.append((f"C13-foreign-exception:{type(e).__name__}", "an unexpected exception on a clean operation", {"at": idx, "op": list(op)[:4]}))
             break
